@@ -158,7 +158,7 @@ func (o Outcome) String() string { return [...]string{"stored", "duplicate", "fo
 type Tree struct {
 	Nodes     map[[32]byte]*Node
 	ByPrev    map[[32]byte][]*Node // hash-link children (includes orphans that arrived before their parent)
-	Order     []*Node // insertion order
+	Order     []*Node              // insertion order
 	Genesis   *Node
 	Best      *Node
 	Forbidden map[[32]byte]bool
@@ -170,9 +170,9 @@ type Tree struct {
 
 // GenesisFields of a stored genesis row (hash is taken from the store, fields from chain params).
 type GenesisFields struct {
-	Hash    [32]byte
-	H       Header
-	Work    *big.Int
+	Hash [32]byte
+	H    Header
+	Work *big.Int
 }
 
 // NewTree creates a tree holding only genesis.
